@@ -27,6 +27,19 @@ C07 model of `FieldIndex.sort` itself, every sort_type; ~45 % of the sorted comm
    answer instead of ValueError                                                              caught
 14 FieldIndex.nbest_descending: `heapq.nlargest(limit + 1, ...)` (one id too many)            caught
 15 CatalogQuery.sort: `numdocs = limit` instead of `min(numdocs, limit)`                       caught
+
+Result stability and None/falsy query values (builder wt_strong4).  `recheck` re-reads the (num, ids) pairs that
+earlier searches handed out (the last 8 are kept) after later catalog traffic and compares them with what they
+were; `clobber` empties the latest result the caller was handed and repeats the search.  Query values `N` (None),
+`Z` (0 under a keyword/facet index), '' (keyword 6 / facet segment 6), empty list/tuple, dict without 'query'.
+  seeded C12_E  unordered single-index search returns the index's own answer object   MISSED before, now caught
+  seeded C12_F  ordered mode treats a query VALUE of None as "not queried"            MISSED before, now caught
+  M12a KeywordIndex.search: 'or' over one word returns the posting itself (ordered mode aliasing that is NOT of
+       the D24 shape)                                                                            caught (recheck)
+  M12b unordered mode skips '' / [] / () / {} query values                                       caught
+  M12c FieldIndex.apply drops None members of a query list of more than one element              caught
+Known finding D24 (found with `recheck` on the unchanged tree): ordered mode, one applicable keyword/facet term, one
+word under 'and', no sort index -> `ids` IS the index's posting set (see known_findings.json; witnesses()).
 """
 from lib.core import exc_name, idset
 
@@ -59,7 +72,13 @@ RULE = ("catalogs of 1-5 indexes (field, keyword, facet; attribute-name and call
         "list), sort_index (field / keyword / unknown), limit (None, 0, -1, 1, 2, huge), reverse; "
         "CatalogQuery.query and __call__ on And(...) of comparator objects (single comparators in 32-bit "
         "catalogs: And over family32 is finding D10 of C04), CatalogQuery.sort on arbitrary id "
-        "sets. non-trivial = some index becomes non-empty and a search over >= 2 indexes returns a non-empty set")
+        "sets. 10% of the generated query forms are None / falsy values (None bare, in lists and in dicts, 0, '', "
+        "empty list/tuple, dict without query: quick seed 0, 8004 cases: 3550 terms with a None/0 value alone and "
+        "1649 with None inside a list, half of each in the ordered mode; 22431 empty-list/dict/'' terms). Result "
+        "stability: `recheck` after 15% of the writes, before the final observations and after 1-4 extra writes at "
+        "the end (45538 rechecks: 44464 stable, 1074 changed in the shape of known finding D24), `clobber` after 5% "
+        "of the searches followed by the same search and an observation (3657). "
+        "non-trivial = some index becomes non-empty and a search over >= 2 indexes returns a non-empty set")
 LEVEL_TEXT = ("Lean 4 proof: for every catalog (any list of field/keyword/facet indexes, arbitrary discriminator "
               "functions), every history of catalog calls and every docid, each index ends in exactly the state "
               "of the same index run stand-alone on the calls projected to it with its own discriminated "
@@ -76,8 +95,8 @@ LEVEL_NOTE = ("trusted: Lean kernel (propext, Quot.sound, Classical.choice), BTr
 TECHNIQUE = "Lean 4 refinement (fan-out = per-index projection) by induction over index lists and histories + loop invariants of both search modes + differential correspondence"
 
 VALS = [-2, 0, 1, 2, 3, 5, 8]
-KWS = ["a", "b", "c", "d", "e", "é"]
-SEGS = ["a", "ab", "b", "c", "é", "x"]
+KWS = ["a", "b", "c", "d", "e", "é", ""]            # the empty string is a legal (falsy) keyword
+SEGS = ["a", "ab", "b", "c", "é", "x", ""]           # rank 6 = '' occurs in QUERIES only (the falsy facet name '')
 SEG_RANK = {s: i for i, s in enumerate(SEGS)}
 FACETS = ["a", "a:b", "a:b:c", "ab", "b", "b:c", "c", "é:x"]
 PATHS = FACETS + ["a:b:c:x", "a:x", "ab:c", "x", "c:a", "b:c:x"]
@@ -186,7 +205,30 @@ def gen_shape(rng, elem, in_dict):
     return ["t"] + [elem(True) for _ in range(n)]
 
 
+def gen_falsy_form(rng, kind, vals, kws, facets):
+    """query values that are None or falsy: each of them is a query like any other (`None` under a field index =
+    both ends open, under a keyword/facet index a TypeError; 0, '', [], () and {} mean what their type means)"""
+    op = rng.choice(["or", "and", "none"])
+    if kind == "field":
+        other = str(rng.choice(vals))
+        return rng.choice([
+            ["v", "N"], ["v", "N"], ["l", "N"], ["l", "N", other], ["l", other, "N"], ["t", "N"], ["t", "N", other, "N"],
+            ["d", op, "v", "N"], ["d", op, "l", "N", other], ["d", "and", "l", other, "N"], ["d", op, "l", "N"],
+            ["v", "0"], ["l", "0"], ["d", op, "v", "0"], ["l"], ["t"], ["d", op, "l"], ["d", "none", "nq"]])
+    if kind == "keyword":
+        return rng.choice([
+            ["v", "N"], ["v", "N"], ["v", "Z"], ["d", op, "v", "N"], ["d", op, "v", "Z"],
+            ["v", "6"], ["l", "6"], ["d", op, "v", "6"], ["d", op, "l", "6", str(rng.choice(kws))],
+            ["l"], ["t"], ["d", op, "l"], ["d", "none", "nq"]])
+    return rng.choice([
+        ["v", "N"], ["v", "N"], ["v", "Z"], ["d", op, "v", "N"], ["d", op, "v", "Z"],
+        ["v", "6"], ["l", "6"], ["d", op, "v", "6"], ["d", op, "l", "6", enc(rng.choice(facets))],
+        ["l"], ["t"], ["d", op, "l"], ["d", "none", "nq"]])
+
+
 def gen_form(rng, kind, vals, kws, facets):
+    if rng.random() < 0.1:
+        return gen_falsy_form(rng, kind, vals, kws, facets)
     if kind == "field":
         def elem(rng_ok):
             return gen_elem(rng, vals, rng_ok)
@@ -236,7 +278,7 @@ def gen_form_hit(rng, kind, vals, kws, facets, tgt):
         v = tgt
         lo = rng.choice([x for x in vals + [v] if x <= v])
         hi = rng.choice([x for x in vals + [v] if x >= v])
-        rngtok = rng.choice(["%d..%d" % (lo, hi), "%d.." % lo, "..%d" % hi, "..", "%d..%d" % (v, v)])
+        rngtok = rng.choice(["%d..%d" % (lo, hi), "%d.." % lo, "..%d" % hi, "..", "%d..%d" % (v, v), "N"])
         others = [str(rng.choice(vals)) for _ in range(rng.randrange(0, 3))]
         if r < 0.15:
             return ["v", str(v)]
@@ -402,6 +444,11 @@ def gen(rng, tier, idx_no):
                 cmds.append(["obs", rng.choice(idx)[0]])
             elif r < 0.8:
                 cmds.append(gen_search(rng, idx, vals, kws, facets_of, cur))
+                if rng.random() < 0.05:
+                    # the caller empties the result it was handed; the same search and the indexes are unimpressed
+                    cmds.append(["clobber"])
+                    cmds.append(cmds[-2])
+                    cmds.append(["obs", rng.choice(idx)[0]])
             elif r < 0.93:
                 cmds.append(gen_query(rng, idx, vals, kws, facets_of, fam))
             else:
@@ -436,13 +483,29 @@ def gen(rng, tier, idx_no):
             cmds.append(["index" if r < 0.75 else "reindex", d] + toks)
             if isinstance(d, int):
                 cur[d] = dict(t.split("=", 1) for t in toks)      # approximately: ignores rejected calls
+        if rng.random() < 0.15:
+            cmds.append(["recheck"])        # results handed out earlier are what they were
         if rng.random() < 0.2:
             some_reads(rng.randrange(1, 3))
+    cmds.append(["recheck"])
     for name, _, _ in idx:
         cmds.append(["obs", name])
         cmds.append(["name", name])
     cmds.append(["name", "zz"])
     some_reads(8)
+    # more catalog traffic after the last searches, then look at their results again
+    for _ in range(rng.randrange(1, 5)):
+        d = rng.choice(ids + [10, 11])
+        if cur and rng.random() < 0.4:
+            d = rng.choice(sorted(cur))
+            cmds.append(["unindex", d])
+            cur.pop(d, None)
+        else:
+            toks = gen_doc(rng, vals, kws)
+            cmds.append([rng.choice(["index", "reindex"]), d] + toks)
+            cur[d] = dict(t.split("=", 1) for t in toks)
+    cmds.append(["recheck"])
+    cmds.append(["obs", rng.choice(idx)[0]])
     return {"session": "catalog", "cfg": cfg, "cmds": cmds}
 
 
@@ -472,6 +535,7 @@ class Impl(object):
         self.kinds = {}
         self.twins = {}
         self.order = []
+        self.kept = []
         for i, spec in enumerate(cfg["add"]):
             style = cfg["disc"][i] if i < len(cfg["disc"]) else "attr"
             self.add(spec, style)
@@ -583,6 +647,10 @@ class Impl(object):
     def elem(self, kind, tok):
         from hypatia import RangeValue
         tok = str(tok)
+        if tok == "N":
+            return None
+        if tok == "Z":
+            return 0
         if kind == "field" or ".." in tok:
             if ".." in tok:
                 lo, hi = tok.split("..")
@@ -691,6 +759,7 @@ class Impl(object):
         allkw = dict(kw)
         allkw.update(o)
         res = self.q.search(**allkw)
+        self.keep(res, o, kw)
 
         def base():
             k2 = dict(kw)
@@ -698,6 +767,56 @@ class Impl(object):
                 k2["index_query_order"] = o["index_query_order"]
             return self.q.search(**k2)[1]
         return self.show(res, o, base)
+
+    # ---- result stability: what a search handed out belongs to the caller
+    def alias_shape(self, o, kw):
+        """'D24' if this search has the shape of known finding D24 (ordered mode, exactly one applicable term, on a
+        keyword/facet index, a single word under operator 'and', no sort index: apply_intersect(query, None)
+        returns KeywordIndex.search's `IF.intersection(None, posting)`, which IS the posting), else a description"""
+        mode = "ordered" if "index_query_order" in o else "unordered"
+        names = [n for n in o["index_query_order"] if n in kw] if mode == "ordered" else list(kw)
+        tag = "%s/%d/%s" % (mode, len(names), "+".join(self.kinds.get(n, "?") for n in names))
+        if mode == "ordered" and len(names) == 1 and self.kinds.get(names[0]) in ("keyword", "facet") \
+                and not o.get("sort_index"):
+            q = kw[names[0]]
+            oper = "and"
+            if isinstance(q, dict):
+                oper = q.get("operator", "and")
+                q = q.get("query")
+            words = [q] if isinstance(q, str) else list(q) if isinstance(q, (list, tuple)) else None
+            if oper == "and" and words is not None and len(words) == 1:
+                return "D24:" + tag
+        return tag
+
+    def keep(self, res, o, kw):
+        import types
+        n, r = res
+        if isinstance(r, (list, tuple, types.GeneratorType)) or r is None:
+            return
+        self.kept.append({"tag": self.alias_shape(o, kw), "obj": r, "num": n, "snap": sorted(r)})
+        del self.kept[:-8]
+
+    def recheck(self):
+        bad = []
+        for k in self.kept:
+            now = sorted(k["obj"])
+            if now != k["snap"] or len(k["obj"]) != len(k["snap"]):
+                bad.append("%s:(%d,%s)->%s" % (k["tag"], k["num"], idset(k["snap"]), idset(now)))
+                k["snap"] = now         # report every change once
+        return "stable" if not bad else "CHANGED " + ";".join(bad)
+
+    def clobber(self):
+        """the caller empties (or, failing that, adds to) the latest result it was handed - its own object"""
+        for k in reversed(self.kept):
+            if k["tag"].startswith("D24"):
+                continue                # known finding D24: that object is the index's posting set
+            self.kept = [x for x in self.kept if x["obj"] is not k["obj"]]
+            try:
+                k["obj"].clear()
+            except AttributeError:
+                pass
+            break
+        return "ok"
 
     def qobj(self, name, toks):
         idx = self.cat[name]
@@ -773,6 +892,10 @@ class Impl(object):
                 return self.query(c[1:], True)
             if op == "sort":
                 return self.sort(c[1:])
+            if op == "recheck":
+                return self.recheck()
+            if op == "clobber":
+                return self.clobber()
         except Exception as e:
             return exc_name(e)
         raise ValueError(c)
@@ -806,6 +929,10 @@ def features(case, outs):
                     f.append("docval:" + v)
         elif op == "reset":
             f.append("reset")
+        elif op == "recheck":
+            f.append("recheck:" + ("stable" if o == "stable" else "changed-D24-shape" if "D24:" in o else "changed"))
+        elif op == "clobber":
+            f.append("clobber")
         elif op == "add":
             f.append("setitem-midway")
         elif op == "obs":
@@ -846,11 +973,25 @@ def features(case, outs):
                             f.append("form:dict:and:empty-list")
                     else:
                         f.append("form:%s%s" % (tag, ":range" if ".." in str(c[i + 3] if i + 3 < len(c) else "") else ""))
+                    j = i + 2
+                    args = []
+                    while j < len(c) and c[j] != ";":
+                        args.append(str(c[j]))
+                        j += 1
+                    if "N" in args[1:] or "Z" in args[1:]:
+                        f.append("form:None-or-0-value:%s:%s" % (mode, "alone" if args[1:] in (["N"], ["Z"]) or
+                                                                   args[-2:] in (["v", "N"], ["v", "Z"]) else "in-list"))
+                    elif args[-1] in ("l", "t", "nq") or "6" in args[1:] and args[0] != "p":
+                        f.append("form:empty-list/dict/'':%s" % mode)
                 i += 1
     return f
 
 
 def classify(case, i, impl, model, spec):
+    c = case["cmds"][i]
+    if c[0] == "recheck" and isinstance(impl, str) and impl.startswith("CHANGED "):
+        if all(part.startswith("D24:") for part in impl[len("CHANGED "):].split(";")):
+            return "D24"
     return None
 
 
@@ -860,6 +1001,10 @@ def witnesses():
     docs = [["index", 0, "x=i3", "k=w1"], ["index", 1, "x=i5", "k=w1"], ["index", 2, "x=i8", "k=w0"],
             ["index", 3, "x=i3", "k=w0,1"]]
     return [
+        # D24 (known finding): ordered search over one keyword index hands out the index's live posting set
+        ("D24", {"session": "catalog", "cfg": base_cfg, "cmds": docs + [
+            ["search", "order=k", ";", "k", "v", "1"], ["search", ";", "k", "v", "1"],
+            ["index", 5, "x=i1", "k=w1"], ["recheck"]]}),
         # D1 (repaired): 'and' over two postings of equal size
         ("regress-D1", {"session": "catalog", "cfg": base_cfg, "cmds": docs + [
             ["search", ";", "f", "d", "and", "l", "3", "5"], ["search", ";", "f", "d", "and", "l", "3", "3..8"]]}),
